@@ -37,6 +37,7 @@ def handle (ts : List String) : Option String :=
       | _ => none
     | _ => none
   | "finroot" :: _ => some "within"     -- theorem C05.opt_within_16k under obligation root_budgets_fit
+  | "finrootx" :: _ => some "within"    -- the same for the root directory a whole-archive Extract writes
   | _ => none
 
 end Driver.C05
